@@ -145,7 +145,7 @@ example : ∀ e ∈ P1.entries, e ∈ (joinAll acl P1 batch).entries := (C04_joi
 
 /-- a wrongly addressed head of a writer aborts the `Sync`; a non-writer's head is skipped (and
 dropped later by the join) -/
-example : syncPrecheck acl [a, x5] = .hashMismatch ∧ syncPrecheck acl [a, x1, b] = .ok := by decide
+example : syncPrecheck0 acl [a, x5] = .hashMismatch ∧ syncPrecheck0 acl [a, x1, b] = .ok := by decide
 
 example : ∀ h ∈ [a, x1, b], acl.canAppend h = true → h.hashOk = true :=
   C04_hash acl [a, x1, b] (by decide)
